@@ -67,7 +67,8 @@ def run(ctx: Ctx) -> None:
                 "distinct = distinct strings, non-trivial = at least one operator or bracket")
     changed = extract.regenerate(["CharClasses", "Grammar"])
     ctx.coverage["generated_changed"] = changed
-    ok = ctx.lean_build(MODULES + ["driver"])
+    ok = ctx.lean_build(MODULES)
+    drv = ctx.lean_build_driver()
     if ok:
         ctx.lean_audit(MODULES)
         if not ctx.quick:
@@ -91,7 +92,7 @@ def run(ctx: Ctx) -> None:
                           {"entry": "parse_condition_expression_to_tree", "s": s, "expected_flat": want, "got_flat": r["flat"]}, key=f"group:{s}")
     for _, s, want in cases[:3] + cases[-2:]:
         ctx.sample({"s": s, "flat": want})
-    if ok:
+    if drv:
         outs = ctx.driver({"op": "parse", "s": s} for _, s, _ in cases)
         n_diff = 0
         for (stream, s, want), mo, io in zip(cases, outs, impl_out):
